@@ -15,7 +15,10 @@ is parsed with html.parser and the statement's clauses are checked on the parsed
 html, head count, meta charset first, user head content, one listing script, each dependency's
 markup once in resolved order, nothing of a dependency elsewhere); (c) the returned list is the
 independent resolution (earliest maximal version per name, first-occurrence order) of the
-document-order dependency sequence and is what the listing names.
+document-order dependency sequence and is what the listing names; (d) rendering twice gives
+the same result and leaves the user's own objects rendering as before; (e) histories on one
+document object (render / append / save_html into a temp dir / copy.copy, any order): every
+render equals what a fresh document built from all content supplied so far renders.
 
 Descriptions are plain JSON lists:
   node ::= ["T", s] | ["H", s] | ["R", s] | ["N"] | ["D", i] | ["G", name, ws, attrs, kids]
@@ -143,17 +146,6 @@ def build_deps(deps: list) -> list:
 
 def top_args(case: dict, objs: list) -> list:
     return [build_node(x, objs) for x in case["args"]]
-
-
-def make_doc(case: dict, objs: list) -> HTMLDocument:
-    args = top_args(case, objs)
-    kw = {k: kw_value(v) for k, v in case["kw"]}
-    cuts = [0] + list(case["split"]) + [len(args)]
-    doc = HTMLDocument(*args[cuts[0]:cuts[1]], **kw)
-    for a, b in zip(cuts[1:], cuts[2:]):
-        if b > a:
-            doc.append(*args[a:b])
-    return doc
 
 
 def kw_value(v: list) -> Any:
@@ -580,15 +572,191 @@ def nontrivial(case: dict) -> bool:
     return bool(doc_order(case["args"])) or bool(case["kw"]) or construction_case(case) == "html"
 
 
-def check_groups(ctx: Ctx, groups: list[tuple[str, list[dict]]]) -> None:
-    """one run of the extracted model for all groups (each call rebuilds / re-checks the driver)"""
+def check_groups(ctx: Ctx, groups: list[tuple[str, list[dict]]], histories: list[dict] | None = None) -> None:
+    """one run of the extracted model for all groups and all history snapshots (each call
+    rebuilds / re-checks the driver)"""
     built = [[build_deps(c["deps"]) for c in cases] for _, cases in groups]
     flat = [case_sx(c, o) for (_, cases), bs in zip(groups, built) for c, o in zip(cases, bs)]
-    model = run_model(flat, driver="c11")
+    hist = [run_history(h) for h in (histories or [])]
+    hist_sx = [case_sx(rec["snapshot"], objs) for objs, recs in hist for rec in recs]
+    model = run_model(flat + hist_sx, driver="c11")
     pos = 0
     for (name, cases), bs in zip(groups, built):
         check_cases(ctx, name, cases, bs, model[pos:pos + len(cases)])
         pos += len(cases)
+    if histories:
+        check_histories(ctx, histories, hist, model[pos:])
+
+
+# ------------------------------------------------------------------------------------
+# histories on ONE document object: render / append / save_html / copy.copy in any order.
+#   history ::= {"deps", "args", "kw", "safe", "ops": [op]}
+#   op ::= ["render", lib_prefix, include_version] | ["append", [node]]
+#        | ["save", libdir, include_version] | ["copy"]
+# After every render (of the document and of every copy made so far) and every save_html the
+# result must be what a FRESH HTMLDocument built from all content supplied so far renders
+# (oracle), and what the model's doc_render gives on that accumulated content (correspondence).
+# ------------------------------------------------------------------------------------
+WHAT_HISTORY = ("after a render / append / save_html / copy history the document does not render as a fresh "
+                "document built from all the content supplied so far")
+
+
+def run_history(h: dict) -> tuple[list, list[dict]]:
+    import shutil
+    import tempfile
+    objs = build_deps(h["deps"])
+    kw = {k: kw_value(v) for k, v in h["kw"]}
+    recs: list[dict] = []
+    tmp = None
+
+    def snap(acc, lp, iv):
+        return {"deps": h["deps"], "args": list(acc), "split": [], "kw": h["kw"], "lib_prefix": lp,
+                "include_version": iv, "safe": h["safe"]}
+
+    def rendered(d, lp, iv):
+        r = d.render(lib_prefix=lp, include_version=iv)
+        return ([getattr(x, "_verif_id", -1) for x in r["dependencies"]], r["html"])
+    try:
+        r0 = safe_call(lambda: HTMLDocument(*[build_node(x, objs) for x in h["args"]], **kw))
+        if r0[0] != "ok":
+            return objs, recs
+        docs = [[r0[1], list(h["args"]), "document"]]
+        for step, op in enumerate(h["ops"]):
+            if op[0] == "append":
+                docs[0][0].append(*[build_node(x, objs) for x in op[1]])
+                docs[0][1] += op[1]
+            elif op[0] == "copy":
+                docs.append([_copy.copy(docs[0][0]), list(docs[0][1]), f"copy made at step {step}"])
+            elif op[0] == "render":
+                for d, acc, who in docs:
+                    recs.append({"step": step, "who": who, "how": "render", "snapshot": snap(acc, op[1], op[2]),
+                                 "result": safe_call(rendered, d, op[1], op[2])})
+            elif op[0] == "save":
+                if tmp is None:
+                    tmp = tempfile.mkdtemp(prefix="verif-c11-")
+                path = os.path.join(tmp, f"d{step}", "index.html")
+                os.makedirs(os.path.dirname(path))
+
+                def saved():
+                    docs[0][0].save_html(path, libdir=op[1], include_version=op[2])
+                    with open(path, encoding="utf-8", newline="") as f:
+                        return (None, f.read())
+                recs.append({"step": step, "who": "document", "how": "save_html",
+                             "snapshot": snap(docs[0][1], op[1], op[2]), "result": safe_call(saved)})
+            else:
+                raise ValueError(op)
+    finally:
+        if tmp is not None:
+            shutil.rmtree(tmp, ignore_errors=True)
+    return objs, recs
+
+
+def check_histories(ctx: Ctx, histories: list[dict], hist: list, model: list) -> None:
+    disagreements = []
+    pos = 0
+    nrec = 0
+    for h, (objs, recs) in zip(histories, hist):
+        shape = "history: " + " ".join(o[0] for o in h["ops"])
+        ctx.count(h, True, "history (" + construction_case({"args": h["args"]}) + " at construction)")
+        for rec in recs:
+            m = model[pos]
+            pos += 1
+            nrec += 1
+            got = rec["result"]
+            fresh, _ = run_impl(rec["snapshot"], objs)
+            if rec["how"] == "save_html" and got[0] == "ok" and fresh[0] == "ok":
+                fresh = ("ok", (None, fresh[1][1]))
+            if got != fresh:
+                ctx.violation(WHAT_HISTORY, h, {"impl_output": repr(got)[:1500], "expected": repr(fresh)[:1500],
+                                                "step": rec["step"], "who": rec["who"], "how": rec["how"],
+                                                "ops": shape})
+            if isinstance(m, tuple):
+                mv = ("!", m[1])
+            else:
+                mv = trees.res_decode(m[1], lambda v: (v[0], unS(v[1])))
+                if rec["how"] == "save_html" and mv[0] == "ok":
+                    mv = ("ok", (None, mv[1][1]))
+            if mv != got:
+                disagreements.append({"case": h, "step": rec["step"], "who": rec["who"], "how": rec["how"],
+                                      "impl_output": got, "model_output": mv})
+    ctx.corr_cases += nrec
+    ctx.obligation(f"correspondence histories on one document object: every render / save_html vs doc_render on "
+                   f"the accumulated content ({len(histories)} histories, {nrec} renders)", not disagreements)
+    if disagreements:
+        disagreements.sort(key=lambda d: len(json.dumps(d["case"], default=repr)))
+        ctx.extra["disagree_histories"] = disagreements[:3]
+        ctx.extra.setdefault("disagreements", []).extend(disagreements[:2])
+
+
+def rand_appended(rng, nd: int, safe: bool) -> list:
+    """what one append call adds"""
+    r = rng.random()
+    if r < 0.3 and nd > 0:            # a dependency only
+        return [["D", rng.randrange(nd)]]
+    if r < 0.45:                      # nested lists / None
+        return [["N"], ["L", rng.choice(["list", "tuple", "taglist"]),
+                        [["L", "list", rand_kids(rng, 1, nd, safe)], ["N"]]]]
+    if r < 0.6:                       # a lone html / body tag
+        return [rng.choice([rand_html(rng, nd, safe), ["G", "body", True, [], rand_kids(rng, 2, nd, safe)]])]
+    kids = rand_kids(rng, 2, nd, safe)
+    return kids or [["T", txt(rng, safe)]]
+
+
+def rand_history(rng) -> dict:
+    safe = rng.random() < 0.5
+    nd = rng.choice([1, 2, 2, 3, 4])
+    deps = [rand_dep(rng, i, safe) for i in range(nd)]
+    settings = [[None, True], ["lib", True], ["a/b", False], ["lib", False]]
+    r = rng.random()
+    if r < 0.3:       # a lone html / body at construction: the first append changes the case
+        args = [rng.choice([rand_html(rng, nd, safe), ["G", "body", True, rand_attrs(rng, safe), rand_kids(rng, 2, nd, safe)]])]
+    elif r < 0.4:
+        args = []
+    else:
+        args = rand_kids(rng, 2, nd, safe)
+    ops: list = []
+    if rng.random() < 0.6:
+        # the core pattern: render, append, render again with the same settings
+        st = rng.choice(settings)
+        ops = [["render"] + st, ["append", rand_appended(rng, nd, safe)], ["render"] + st]
+    for _ in range(rng.choice([0, 1, 2, 3, 4] if ops else [2, 3, 4, 5])):
+        r = rng.random()
+        if r < 0.35:
+            op = ["render"] + rng.choice(settings)
+        elif r < 0.7:
+            op = ["append", rand_appended(rng, nd, safe)]
+        elif r < 0.85:
+            op = ["save"] + rng.choice(settings)
+        else:
+            op = ["copy"]
+        ops.insert(rng.randrange(len(ops) + 1) if rng.random() < 0.5 else len(ops), op)
+    if ops[-1][0] not in ("render", "save"):
+        ops.append(["render"] + rng.choice(settings))
+    if any(o[0] == "save" for o in ops):
+        # save_html copies files: only dependencies without local files (none / url source)
+        for d in deps:
+            if d["kind"] == "dep" and d["source"] == "pkg":
+                d["source"] = rng.choice(["none", "href"])
+    return {"deps": deps, "args": args, "kw": rand_kw(rng, safe) if rng.random() < 0.5 else [], "safe": safe, "ops": ops}
+
+
+FIXED_HISTORIES = [
+    # render, append content with its own dependency, render again with the same settings
+    {"deps": [{"kind": "dep", "name": "a", "version": "1.0", "source": "href", "meta": [], "stylesheet": [],
+               "script": [{"src": "a.js"}], "head": None},
+              {"kind": "dep", "name": "b", "version": "2", "source": "none", "meta": [], "stylesheet": [],
+               "script": [{"src": "b.js"}], "head": ["str", "<i>b</i>"]}],
+     "args": [["G", "div", True, [], [["T", "x"], ["D", 0]]]], "kw": [["lang", ["str", "en"]]], "safe": True,
+     "ops": [["render", "lib", True], ["append", [["G", "p", True, [], [["T", "y"], ["D", 1]]]]], ["render", "lib", True],
+             ["save", "lib", True], ["copy"], ["append", [["D", 1]]], ["render", "lib", True], ["render", None, False]]},
+    # a lone html at construction; the append turns the content into a fragment of two items
+    {"deps": [{"kind": "dep", "name": "a", "version": "1.0", "source": "none", "meta": [], "stylesheet": [],
+               "script": [{"src": "a.js"}], "head": None}],
+     "args": [["G", "html", True, [], [["G", "head", True, [], [["G", "title", True, [], [["T", "t"]]]]], ["G", "body", True, [], [["T", "x"]]]]]],
+     "kw": [], "safe": True,
+     "ops": [["render", "lib", True], ["append", [["D", 0]]], ["render", "lib", True], ["append", [["N"], ["L", "list", [["N"]]]]],
+             ["render", "lib", True]]},
+]
 
 
 def check_cases(ctx: Ctx, name: str, cases: list[dict], built: list, model: list) -> None:
@@ -990,6 +1158,12 @@ def run(ctx: Ctx) -> None:
                 "dependency's head payload (finding F7); bounded-exhaustive: every child sequence up to length 3 "
                 "(thorough 4) of the user's html over {empty head, head with title+dependency, body with two "
                 "dependencies, dependency, div, object expanding to head+dependency}, also as fragment / lone body. "
+                "Histories on ONE document object: construction (fragment, lone html/body, empty) then 2-8 operations "
+                "from {render(lib_prefix, include_version), append (a dependency only, nested lists/None, a lone "
+                "html/body tag that changes the construction case, ordinary children), save_html into a temp dir, "
+                "copy.copy(doc)}, 60% containing render / append / render with the same settings; after every render "
+                "(document and every copy) and save_html the result is compared with a fresh document built from the "
+                "content supplied so far and with the model. "
                 "A case is non-trivial when a dependency is placed, keyword attributes are given or the user's own "
                 "html is used. distinct = distinct canonical inputs.")
     ctx.assumptions = [
@@ -1009,11 +1183,12 @@ def run(ctx: Ctx) -> None:
         coqchk(ctx)
 
     groups = [("fixed+corpus", FIXED + load_corpus()),
-              ("random documents", [rand_case(rng) for _ in range(ctx.budget(2000, 45000))]),
+              ("random documents", [rand_case(rng) for _ in range(ctx.budget(1600, 45000))]),
               ("dependency inside a dependency's head payload",
                [rand_case(rng, f7=True) for _ in range(ctx.budget(300, 5000))]),
               ("every small html child sequence", exhaustive_cases(ctx.budget(3, 4)))]
-    check_groups(ctx, groups)
+    histories = FIXED_HISTORIES + [rand_history(rng) for _ in range(ctx.budget(450, 8000))]
+    check_groups(ctx, groups, histories)
 
     check_head_content(ctx, rng, ctx.budget(400, 5000))
 
@@ -1023,7 +1198,11 @@ def replay(ctx: Ctx, path: str) -> None:
         r = json.load(f)
     print(json.dumps(r, indent=1)[:4000])
     c = r.get("case")
-    if isinstance(c, dict) and "args" in c and "deps" in c:
+    if isinstance(c, dict) and "ops" in c:
+        ctx.rule = "replay of one history on one document object"
+        ctx.proof()
+        check_groups(ctx, [], [c])
+    elif isinstance(c, dict) and "args" in c and "deps" in c:
         ctx.rule = "replay of one document case"
         ctx.proof()
         check_groups(ctx, [("replay", [c])])
